@@ -23,7 +23,7 @@ def spec(tier):
                    "serve_onSave", "serve_document_symbols"],
         bounds="statement documents: <=2 lines quick / <=3 thorough over 100 statement forms x {free, preprocessed, fixed}; directive documents: <=3 lines over 34 forms x 2 definition sets; "
                "growth documents: k<=40 definitions x fan-out w<=3 x 5 shapes, 60 s wall guard per document (k from a 13-value table in quick, all 40 in thorough); "
-               "prefixes/mutations: every (line, column) of 5 sample programs (quick) + repository test sources (thorough); get_line calls <= 48*nLines+32; 30 s wall guard per path",
+               "prefixes/mutations: every (line, column) of 5 sample programs (quick) + repository test sources (thorough); get_line calls <= 48*nLines+32; 120 s wall guard per path",
         assumptions=["in-memory disk", "texts are chosen by solver-forked indices and then indexed concretely (bounded enumeration)"],
         outside=["arbitrary Unicode soup beyond the tables", "documents longer than the bound (the loop's progress argument is checked on these sizes, not proved)"],
     )
